@@ -416,6 +416,14 @@ func (w *world) check(fs *finderState, o op, ob obs) []finding {
 	if int(ob.Total) != open && fs.first(fmt.Sprint("total", int(ob.Total)-open)) {
 		add("total-count-differs-from-open-connections:after-"+opClass, fmt.Sprintf("totalClientCount=%d but %d connections are open", ob.Total, open))
 	}
+	// connection gauge (host and cluster upstream_connection_active): the connections of this pool that are open
+	if ga, gc := w.host.HostStats().UpstreamConnectionActive.Count(), w.host.ClusterInfo().Stats().UpstreamConnectionActive.Count(); (ga != int64(open) || gc != int64(open)) && fs.first(fmt.Sprint("conn-gauge", ga-int64(open), gc-int64(open))) {
+		sig := "connection-active-differs-from-open-connections"
+		if ga < 0 || gc < 0 {
+			sig = "connection-active-negative"
+		}
+		add(sig+":after-"+opClass, fmt.Sprintf("upstream_connection_active host=%d cluster=%d but %d connections of the pool are open", ga, gc, open))
+	}
 	wantReq := int64(0)
 	if w.maxReq != 0 {
 		wantReq = int64(nlive + w.ext)
